@@ -47,7 +47,7 @@ PROPS = {
                      "comment transplant sites built from iterator-adapter chains (parenthesis removal, semicolon removal, hang_binop, punctuated lists, table fields): holes; "
                      "a comment dropped inside such a chain is not visible to this unit",
                      "code never ends up inside a comment: decided inside expressions (line safety, see C01) and for leading trivia (C01.load_line_comment_terminated); elsewhere bounded witnesses only",
-                     "known NOT to hold on the current tree: two line comments around a comma merge (D28), a comment between a name key and `=` is lost (D29, pinned by a snapshot)"],
+                     "known NOT to hold on the current tree: two line comments around a comma merge (D28), a comment between a name key and `=` is lost (D29, pinned by a snapshot), comments behind header keywords (D30)"],
         assumptions=["TokenReference::new/leading_trivia/trailing_trivia behave as a triple of sequences (class A)"]),
     "C04": dict(units=["tok", "expr"], bounded=[dict(kind="lib", witnesses="C04_WITNESSES"), dict(kind="corpus", kinds=["literals"])],
         explanation="quote choice (get_quote_to_use against the counting spec), number rewriting limited to inserting `0` before a leading `.` / after `-` "
@@ -159,8 +159,7 @@ PROPS = {
                     "formatted expression, whatever follows a token whose trailing trivia end with a line comment starts a new line; (5) format_code returns exactly the printed AST. "
                     "Bounded (labelled): witness programs for line comments outside expressions (arguments, parameters, for headers, callee/arguments, method calls) and the corpus sweep (re-parse).",
         not_decided=["whole-grammar printer correctness (the property as stated): no contract reaches it; every statement formatter would need the line-safety postcondition",
-                     "line safety outside expressions rests on the line comment guard (the last pass of CodeFormatter::format, repair of the D30 class): a visitor over every token, not under contract — assumed to change whitespace trivia only; "
-                     "what it achieves is exercised by the comment-injection sweep (bounded)"],
+                     "line safety outside expressions: known NOT to hold on the current tree for comments behind header keywords (D30, known findings)"],
         assumptions=["line safety: the leaves of an expression (names, calls, tables, anonymous functions, literals, the type of an assertion) are assumed safe (leaf_safe / ta_safe postconditions on stubs); "
                      "format_binop/format_unop produce an operator that is open only if the source operator is; hang_binop produces an operator that starts a line and is closed; "
                      "removed_parentheses_comments terminates every leading comment it returns with a newline; has_trailing_comments(Single|All) is true for a node whose last token is open (definitional)"]),
@@ -350,7 +349,7 @@ LINE_SAFE_WITNESSES = [w('local s = ( -- x\n"x"):rep(3)\nlocal t = ("x" -- y\n):
                        w(f'local x = {"a" * 49} + ({"b" * 46} -- c\n) * {"d" * 42}\n', oracle="comments", sweep=(10, 140)),
                        w('x = a -- c\n :: T\nfoo((a -- d\n) :: number)\nlocal y = ((b -- e\n) :: any) :: T\n', oracle="tree", syntax="luau", sweep=(10, 120)),
                        w('x = a -- c\n :: T\nfoo((a -- d\n) :: number)\n', oracle="comments", syntax="luau", sweep=(10, 120))]
-# D30 (repaired as a class by the line comment guard, fix: 867143f; the witnesses stay): a line comment directly behind a keyword / name / symbol inside a statement header or a bracket, where the
+# D30 (open, a class): a line comment directly behind a keyword / name / symbol inside a statement header or a bracket, where the
 # formatter expects no comment: the token printed next lands inside the comment. One witness per call site that was examined.
 LOCAL_COMMENT_WITNESSES = [w('local -- x\n x = 1\nlocal -- y\n a, b\ndo local -- z\n c = 2 end\n', oracle="comments", sweep=(10, 120))]
 D30_FINDINGS = [w('for -- x\n i = 1, 2 do end\n', oracle="comments"), w('for i = 1, -- x\n 2 do end\n', oracle="comments"),
